@@ -54,7 +54,11 @@ var (
 // set of (application id, type) pairs they declare.
 func loadAppTable() (map[appKey]bool, error) {
 	appTableOnce.Do(func() {
-		b, err := os.ReadFile("/repo/diam/dict/default.go")
+		repo := os.Getenv("VERIF_REPO")
+		if repo == "" {
+			repo = "/repo"
+		}
+		b, err := os.ReadFile(repo + "/diam/dict/default.go")
 		if err != nil {
 			appTableErr = err
 			return
